@@ -1228,7 +1228,7 @@ class CSSMatch(_DocumentNav):
         parent = el  # type: bs4.Tag | None
         found_lang = None
         last = None
-        while not found_lang:
+        while found_lang is None:
             has_html_ns = self.has_html_ns(parent)
             for k, v in self.iter_attributes(parent):
                 attr_ns, attr = self.split_namespace(parent, k)
